@@ -16,7 +16,7 @@ from rv.readers.reader import read_sunvox_file
 
 PROPERTY = "C01"
 LEVEL = "exploration"
-BUDGET_S = {"quick": 75, "thorough": 1200}
+BUDGET_S = {"quick": 75, "thorough": 3600}
 RULE = (
     "one evaluation = one seeded history of up to ~100 API operations (new module of any of the 42 types, set any "
     "catalogue slot incl. controllers/options/MIDI bindings/type-specific payload, connect/disconnect in every operand "
